@@ -146,13 +146,17 @@ func min2(a, b int) int {
 // PoolCycles: warmed-up get/use/put cycles with one buffer outstanding, measured (C18).
 func PoolCycles(pw *poolWriter, ty string, ch, l, k, cycles int) {
 	pool := NewPool(ty, allocator(ch, l, k))
+	byValue := (ch+l+k)%2 == 0
+	if byValue {
+		pool = pool.Copy() // all calls go through one persistent copy of the allocator value taken before the first Put
+	}
 	pw.tid++
 	pw.Traces++
 	pw.emit(&PEvent{Op: "NewPool", Kind: ty, Ch: ch, L: l, K: k, Procs: 1, Res: "ok", Allocs: -1})
 	ids := map[any]int{}
 	keep := []View{}
 	for c := 0; c < cycles; c++ {
-		v := pool.Get(false)
+		v := pool.Get(byValue)
 		a := lastAllocs
 		keep = append(keep, v)
 		id, seen := ids[v.Raw()]
@@ -168,7 +172,7 @@ func PoolCycles(pw *poolWriter, ty string, ch, l, k, cycles int) {
 		x := int64(1 + c%100)
 		v.AppendSample(x)
 		pw.emit(&PEvent{Op: "Use", G: 1, ID: id, Kind: "AppendSample", A: []int64{x}, Res: "ok", View: obsOf(v), Allocs: -1})
-		res := run(func() { pool.Put(v, false) })
+		res := run(func() { pool.Put(v, byValue) })
 		pw.emit(&PEvent{Op: "Put", G: 1, ID: id, Res: res, Allocs: lastAllocs})
 	}
 }
